@@ -35,6 +35,15 @@ CLAIMED = {
              "recorded run of the real planner whether each Reject/Place/Final/Path event is a step of that same spec; "
              "nearest-neighbour answers are checked against brute force. Bounded exhaustive + random seeds.",
         note="TLC; rtree answers treated as inputs (checked against brute force); float costs compared in 1e-4 units"),
+    "C20": dict(
+        level="model_checking", design="3/C20",
+        technique="TLA+ spec Disp.tla: TLC enumerates the case space (kinds x shapes x dtypes x decimals x title parity "
+                  "x print switch x mode), proves the layout lemma for every shape and exports expected rows; every case "
+                  "is executed on the real disp()",
+        text="Exhaustive over the finite case space the property names (quick: full parameter product for <=2 axes, "
+             "default parameters for 3..5 axes; thorough: full product to 4 axes): totality, printed==returned, and "
+             "element-by-element faithfulness in the row order given by the spec's layout function.",
+        note="TLC; harness parses numeric fields between frame characters; values chosen by the harness"),
 }
 
 NOT_YET = "check not built yet in this round (planned: see DESIGN.md section 3)"
